@@ -47,3 +47,12 @@ package auth
 //@ func (*response).OnlineMode
 //@   props C08
 //@   ensures result == r.onlineMode
+
+// The verify token: the client's ciphertext is decrypted with the proxy's private key and the plaintext must be EXACTLY the
+// issued token (bytes.Equal of the two, same length and content) - a decryption error verifies nothing.
+//@ func (*authenticator).Verify
+//@   props C08
+//@   at-call DecryptPKCS1v15 as dec: assert arg1 == a.private && ref(arg2) == ref(encryptedVerifyToken) && len(arg2) == len(encryptedVerifyToken)
+//@   at-call bytes.Equal as eq: assert [exact-token-comparison] called(dec) && res(dec, 1) == nil && ((ref(arg0) == ref(res(dec, 0)) && len(arg0) == len(res(dec, 0)) && ref(arg1) == ref(actualVerifyToken) && len(arg1) == len(actualVerifyToken)) || (ref(arg1) == ref(res(dec, 0)) && len(arg1) == len(res(dec, 0)) && ref(arg0) == ref(actualVerifyToken) && len(arg0) == len(actualVerifyToken)))
+//@   ensures [verdict-is-the-exact-comparison] result.1 == nil ==> called(eq) && result.0 == res(eq)
+//@   ensures [decrypt-error-verifies-nothing] called(dec) && res(dec, 1) != nil ==> !result.0 && result.1 != nil && !called(eq)
